@@ -112,7 +112,7 @@ def run_doc(args):
         return [('cannot load %s: %r' % (fname, e), {})], hist
     bad += scan(m, fname + ' as loaded')
     for j in range(rng.randint(2, 4)):
-        kind = rng.choice(['convert', 'singularity', 'edit', 'fix'])
+        kind = rng.choice(['convert', 'singularity', 'edit', 'fix', 'foreign'])
         if j == 0 and forced:
             kind = forced
         hist.append(kind)
@@ -133,6 +133,18 @@ def run_doc(args):
                 cands = [s for s in states if s.name.endswith('$V') or s.name.endswith('$v')] or states
                 if cands:
                     m.remove_fixable_singularities(cands[0])
+            elif kind == 'foreign':
+                # a unit object of ANOTHER model must not end up inside this model's equations
+                from cellmlmanip.model import Model
+                other = Model('other')
+                fu = other.units.add_unit('mV', 'volt / 1000')
+                try:
+                    fq = m.create_quantity(5.0, fu)
+                except Exception:
+                    fq = None
+                if fq is not None:
+                    v = m.add_variable('c18$foreign%d' % j, 'dimensionless')
+                    m.add_equation(sympy.Eq(v, fq))
             elif kind == 'edit':
                 v = m.add_variable('c18$extra%d' % j, 'dimensionless')
                 some = rng.choice(list(m.variables()))
@@ -149,6 +161,58 @@ def run_doc(args):
         if bad:
             break
     return bad, hist
+
+
+def run_api_singular(seed):
+    """two or three models built through the API in ONE process, each with GHK-like singular terms (all four documented
+    forms, also inside a reciprocal written with an integer or a float exponent); singularities removed in each; every
+    model scanned after every removal (numbers created during the analysis must not be shared between models)"""
+    import sympy as sp
+    from cellmlmanip import parser
+    from cellmlmanip.model import Model
+    rng = random.Random(seed)
+    EXP = parser.SIMPLE_MATHML_TO_SYMPY_CLASSES['exp']
+    bad = []
+    models = []
+    for k in range(rng.randint(2, 3)):
+        m = Model('m%d' % k)
+        mV = m.units.add_unit('mV', 'volt / 1000')
+        ms = m.units.add_unit('ms', 'second / 1000')
+        per_mV = m.units.add_unit('per_mV', '1 / mV')
+        mV_per_ms = m.units.add_unit('mV_per_ms', 'mV / ms')
+        t = m.add_variable('t', ms)
+        V = m.add_variable('V', mV, initial_value=-80)
+        q = m.create_quantity
+        d = 'dimensionless'
+        names = []
+        for j in range(rng.randint(1, 3)):
+            a = m.add_variable('a%d' % j, d)
+            slope = rng.choice([0.16, -0.04, 0.1, -1.0])
+            U = q(slope, per_mV) * V + q(rng.choice([1.6, -0.5, 2.0, 0.25]), d)
+            form = rng.randrange(4)
+            ghk = [U / (EXP(U) - q(1, d)), U / (q(1, d) - EXP(U)), (EXP(U) - q(1, d)) / U, (q(1, d) - EXP(U)) / U][form]
+            shape = rng.randrange(4)
+            if shape == 0:
+                rhs = q(rng.choice([2, 0.5, 3]), d) * ghk
+            elif shape == 1:
+                rhs = sp.Pow(q(2, d) + ghk, -1.0)
+            elif shape == 2:
+                rhs = sp.Pow(q(2, d) + ghk, -1)
+            else:
+                rhs = q(1.5, d) + ghk
+            m.add_equation(sp.Eq(a, rhs))
+            names.append(a)
+        m.add_equation(sp.Eq(sp.Derivative(V, t), sum(names[1:], names[0]) * q(1, mV_per_ms)))
+        models.append((m, V))
+    for k, (m, V) in enumerate(models):
+        try:
+            m.remove_fixable_singularities(V)
+        except Exception as e:
+            bad.append(('remove_fixable_singularities raises %r on an API-built model' % (e,), {'seed': seed}))
+            continue
+        for i, (m2, _) in enumerate(models[:k + 1]):
+            bad += scan(m2, 'API-built model %d after singularity removal in model %d (same process)' % (i, k))
+    return bad
 
 
 def run(ctx):
@@ -188,11 +252,19 @@ def run(ctx):
         for what, detail in bad:
             ctx.violation(what, {'doc': list(a)})
     ctx.sample({'doc_case': list(dargs[0])})
+    seeds = [ctx.seed * 1000 + i for i in range(24 if ctx.tier == 'quick' else 300)]
+    for sd, bad in zip(seeds, vlib.pmap(run_api_singular, seeds)):
+        ctx.count(case_key=('api-singular', sd), kind='api-singular')
+        for what, detail in bad:
+            ctx.violation(what, {'api_singular': sd})
 
 
 def replay(ctx, case):
     if 'doc' in case:
         bad, _ = run_doc(tuple(case['doc']))
+        return bad[0][0] if bad else None
+    if 'api_singular' in case:
+        bad = run_api_singular(case['api_singular'])
         return bad[0][0] if bad else None
     r = run_generated(case.get('case', case))
     return r['bad'][0][0] if r.get('bad') else None
